@@ -203,7 +203,7 @@ func fail(key, f string, a ...any) (string, string) { return fmt.Sprintf(f, a...
 
 // checkDocFields compares the dumped documents docs (consecutive in the shard, the first starting at rune *startRune)
 // with exp, field by field.
-func checkDocFields(docs []index.VerifDoc, exp []expectDoc, startRune *uint32) (string, string) {
+func checkDocFields(docs []index.VerifDoc, exp []expectDoc, startRune *uint32, branches []string) (string, string) {
 	if len(docs) != len(exp) {
 		return fail("doc-count", "%d documents read back, %d added", len(docs), len(exp))
 	}
@@ -227,6 +227,18 @@ func checkDocFields(docs []index.VerifDoc, exp []expectDoc, startRune *uint32) (
 			return fail("sections", "doc %d sections %v want %v", i, d.Sections, e.Secs)
 		case len(d.RuneSections) != len(e.Secs):
 			return fail("runesections-length", "doc %d has %d rune sections, %d sections", i, len(d.RuneSections), len(e.Secs))
+		}
+		// the stored branch mask: one bit per branch of the document, at the branch's position in *its* repository's list
+		var wantMask uint64
+		for _, eb := range e.Branches {
+			for bi, rb := range branches {
+				if rb == eb {
+					wantMask |= 1 << uint(bi)
+				}
+			}
+		}
+		if d.BranchMask != wantMask {
+			return fail("branch-mask", "doc %d (%s) branch mask %b want %b (branches %v of %v)", i, e.Name, d.BranchMask, wantMask, e.Branches, branches)
 		}
 		rs := runeStarts(d.Content)
 		for j, sec := range d.RuneSections {
@@ -436,7 +448,7 @@ func oracle(s zoekt.Searcher, sh *index.VerifShard, rp repoSpec, repo *zoekt.Rep
 		}
 	}
 	start := uint32(0)
-	if v, k := checkDocFields(sh.Docs, exp, &start); v != "" {
+	if v, k := checkDocFields(sh.Docs, exp, &start, rp.Branches); v != "" {
 		return v, k
 	}
 	if v, k := checkGlobal(sh); v != "" {
